@@ -49,6 +49,9 @@ type c06Txn struct {
 	Route string  `json:"route"` // col: collection methods with db.InitContext(ctx, txn) | gql: txn.ExecRequest
 	Ops   []c06Op `json:"ops"`
 	End   string  `json:"end"` // commit | discard
+	// Concurrent: the transaction is obtained with DB.NewConcurrentTxn (the concurrency-safe flavour
+	// of an explicit transaction) instead of DB.NewTxn; the isolation contract is the same.
+	Concurrent bool `json:"concurrent,omitempty"`
 }
 
 type c06Params struct {
@@ -142,6 +145,7 @@ func c06GenTxn(rng *rand.Rand, t, nTxns, maxOps int, memory bool) c06Txn {
 	if !memory && rng.IntN(2) == 0 {
 		tx.Route = "gql"
 	}
+	tx.Concurrent = rng.IntN(3) == 0
 	k := 1 + rng.IntN(maxOps)
 	pickDoc := func() string {
 		switch x := rng.IntN(20); {
@@ -229,6 +233,13 @@ func c06Anchors() []core.Case {
 	add("create-visibility", c06Params{Store: "badger", Indexed: true, Txns: []c06Txn{
 		{Route: "gql", Ops: []c06Op{{Op: "new", Doc: "n0.0"}, {Op: "list"}}, End: "commit"},
 		{Route: "col", Ops: []c06Op{{Op: "get", Doc: "n0.0"}, up("n0.0", "v", "u1.1")}, End: "commit"}}})
+	// the same contract for transactions obtained with NewConcurrentTxn
+	add("concurrent-flavour-both-write-and-discard", c06Params{Store: "badger", Indexed: true, Txns: []c06Txn{
+		{Route: "col", Concurrent: true, Ops: []c06Op{{Op: "get", Doc: "d1"}, up("d1", "v", "u0.1"), {Op: "new", Doc: "n0.2"}}, End: "commit"},
+		{Route: "col", Concurrent: true, Ops: []c06Op{up("d1", "v", "u1.0"), {Op: "list"}}, End: "commit"}}})
+	add("concurrent-flavour-discard-after-write", c06Params{Store: "badger", Txns: []c06Txn{
+		{Route: "gql", Concurrent: true, Ops: []c06Op{up("d1", "v", "u0.0"), {Op: "new", Doc: "n0.1"}}, End: "discard"},
+		{Route: "col", Ops: []c06Op{{Op: "list"}, up("d1", "w", "200")}, End: "commit"}}})
 	// corekv memory store (collection route, no delete)
 	add("read-write-across-commit", c06Params{Store: "memory", Txns: []c06Txn{
 		{Route: "col", Ops: []c06Op{{Op: "get", Doc: "d1"}, up("d1", "v", "u0.1")}, End: "commit"},
@@ -534,7 +545,14 @@ func c06RunSchedule(ctx context.Context, env *c06Env, p c06Params, sched []int, 
 		switch {
 		case step == 0:
 			stepKind = "begin"
-			txn, err := x.n.DB.NewTxn(ctx, false)
+			var txn client.Txn
+			var err error
+			if T.prog.Concurrent {
+				txn, err = x.n.DB.NewConcurrentTxn(ctx, false)
+				x.r.Count("txns_concurrent_flavour", 1)
+			} else {
+				txn, err = x.n.DB.NewTxn(ctx, false)
+			}
 			core.Must(err)
 			T.txn, T.tctx = txn, db.InitContext(ctx, txn)
 			T.view = x.S.clone()
